@@ -23,6 +23,8 @@ pub fn yield_with<T: EventSource>(resource: &T) {
     // if cancel detected in user space
     // no need to get into kernel any more
     if unlikely(cancel.is_canceled()) {
+        #[cfg(may_verif)]
+        crate::verif::note("para.set", "2");
         co_set_para(std::io::Error::other("Canceled"));
         return resource.yield_back(cancel);
     }
@@ -73,13 +75,33 @@ pub fn yield_with_io<T: EventSource>(resource: &T, is_coroutine: bool) {
 #[cold]
 #[inline]
 pub fn set_co_para(co: &mut CoroutineImpl, v: EventResult) {
+    #[cfg(may_verif)]
+    crate::verif::note("para.set", verif_para_code(Some(&v)));
     co.set_para(v);
 }
 
 /// get the coroutine para from the coroutine context
+#[cfg(not(may_verif))]
 #[inline]
 pub fn get_co_para() -> Option<EventResult> {
     co_get_yield::<EventResult>()
+}
+
+/// hooked twin: the consumption of the para slot is an event (`para.get` 0 = empty, 1 = TimedOut, 2 = Canceled/other)
+#[cfg(may_verif)]
+pub fn get_co_para() -> Option<EventResult> {
+    let r = co_get_yield::<EventResult>();
+    crate::verif::note("para.get", verif_para_code(r.as_ref()));
+    r
+}
+
+#[cfg(may_verif)]
+fn verif_para_code(v: Option<&EventResult>) -> &'static str {
+    match v {
+        None => "0",
+        Some(e) if e.kind() == std::io::ErrorKind::TimedOut => "1",
+        Some(_) => "2",
+    }
 }
 
 #[inline]
